@@ -109,9 +109,10 @@ UNIT = {
         r is Ok ==> r->Ok_0.1 is Handshake && kind_code(r->Ok_0.1->Handshake_0) == i@[0] as int,
 """, "splices": [
             {"at_start": True, "text": "    let ghost i0 = i@;\n    proof { reveal_with_fuel(be_val, 4); }"},
-            {"after": r"let \(i, ht\) = be_u8\(i\)\?;", "text": "    let ghost i1 = i@;\n    proof { assert(i0.len() >= 1); assert(i1 =~= i0.subrange(1, i0.len() as int)); assert(ht == i0[0]); }"},
-            {"after": r"let \(i, hl\) = be_u24\(i\)\?;", "text": "    let ghost i2 = i@;\n    proof { assert(i1.len() >= 3); assert(i2 =~= i0.subrange(4, i0.len() as int)); assert(hl as int == (i0[1] as int) * 65536 + (i0[2] as int) * 256 + (i0[3] as int)); }"},
-            {"after": r"let \(i, raw_msg\) = take\(hl\)\(i\)\?;", "text": "    proof { assert(raw_msg@ =~= i0.subrange(4, 4 + hl as int)); assert(i@ =~= i0.subrange(4 + hl as int, i0.len() as int)); }"},
+            # rename-tolerant anchors: {g1} = the name the remainder is bound to in the anchored statement
+            {"after": r"let \((\w+), ht\) = be_u8\(\w+\)\?;", "text": "    let ghost i1 = {g1}@;\n    proof { assert(i0.len() >= 1); assert(i1 =~= i0.subrange(1, i0.len() as int)); assert(ht == i0[0]); }"},
+            {"after": r"let \((\w+), hl\) = be_u24\(\w+\)\?;", "text": "    let ghost i2 = {g1}@;\n    proof { assert(i1.len() >= 3); assert(i2 =~= i0.subrange(4, i0.len() as int)); assert(hl as int == (i0[1] as int) * 65536 + (i0[2] as int) * 256 + (i0[3] as int)); }"},
+            {"after": r"let \((\w+), raw_msg\) = take\(hl\)\(\w+\)\?;", "text": "    proof { assert(raw_msg@ =~= i0.subrange(4, 4 + hl as int)); assert({g1}@ =~= i0.subrange(4 + hl as int, i0.len() as int)); }"},
         ]},
     ],
     "epilogue": r'''
